@@ -652,3 +652,24 @@ package cmd
 //@                 && len(ptsList) == len(c.ArchiveInfoList) && (forall k :: 0 <= k && k < len(ptsList) ==> len(ptsList[k]) == c.ArchiveInfoList[k].numberOfPoints)
 //@   check[C20] empty: result0 == nil && !c.Fill ==> !called(updateFileDataWithPointsList)
 //@   check[C20] synced: result0 == nil ==> called("(*Whisper).Sync") && callret("(*Whisper).Sync", 0) == nil
+
+// ---------------------------------------------------------------- flag values (C07, C19)
+
+//@ func (timestampValue).Set
+//@   props C19
+//@   requires t.t != nil
+//@   modifies *t.t
+//@   check[C19] exact: result == nil ==> called(ParseTimestamp) && callret(ParseTimestamp, 1) == nil && *t.t == callret(ParseTimestamp, 0)
+//@   check[C19] rejects: called(ParseTimestamp) && callret(ParseTimestamp, 1) != nil ==> result != nil
+
+//@ func (aggregationMethodValue).Set
+//@   props C07
+//@   requires v.m != nil
+//@   modifies *v.m
+//@   ensures valid: result == nil ==> 1 <= *v.m && *v.m <= 6
+
+//@ func (archiveInfoListValue).Set
+//@   props C07 C19
+//@   requires v.l != nil
+//@   modifies *v.l
+//@   ensures valid: result == nil ==> wellFormed(*v.l)
